@@ -9,8 +9,8 @@ Decided by model-based verification with spec/Sigs.tla and spec/Keybase.tla:
           arrangements in which every listed key signed the message in its own position, and
           prints the case table; cryptodrv builds every case from real ed25519 / secp256k1 /
           mixed keys and real signatures and the real VerifyBytes must return the model's boolean.
- Keybase: TLC explores the whole state graph of the keybase machine (3 keys, 3 passphrases, 2
-          kept armors) checking the property on every transition (StepOK); behaviours drawn by
+ Keybase: TLC explores the whole state graph of the keybase machine (3 keys, 4 passphrases of
+          which two differ from the other two only by white space, 1-2 kept armors) checking the property on every transition (StepOK); behaviours drawn by
           TLC's simulator (seeded) are selected to cover every (operation, result class) and are
           replayed by cryptodrv on keys.NewInMemory() and on the lazy keybase (LevelDB in a temp
           dir); after every step the success/failure of the call, the key it returned, List(),
@@ -206,13 +206,32 @@ def _beh_cost(beh, npass):
     return c + npass * len(beh[-1]["list"]) if beh else c
 
 
+PADDED = {"e": "w", "u": "v"}          # name -> the name bound to the same passphrase padded with white space
+BASE_OF = {"w": "e", "v": "u"}
+WS_OPS = ("Update", "ExportArm", "ExportObj", "Delete", "Sign")
+# every run must replay: a call that presents the white-space-padded variant of the stored passphrase
+# (must fail), one that presents the trimmed variant of a stored padded passphrase (must fail), and a
+# successful call whose RIGHT passphrase has leading/trailing white space
+WS_REQUIRED = [("ws-padded-wrong", op) for op in WS_OPS] + [("ws-trimmed-wrong", op) for op in WS_OPS] + \
+              [("ws-right", op) for op in WS_OPS]
+
+
 def _beh_items(beh):
     items = set()
     for s in beh:
         l = s["l"]
-        items.add((l["op"], l["res"]["class"]))
-        items.add((l["op"], l["res"]["class"], l["p"], l["q"]))
-        items.add((l["op"], l["res"]["class"], len(s["list"])))
+        cls = l["res"]["class"]
+        items.add((l["op"], cls))
+        items.add((l["op"], cls, l["p"], l["q"]))
+        items.add((l["op"], cls, len(s["list"])))
+        if l["op"] in WS_OPS and 1 <= l["k"] <= len(s["st"]):
+            stored = s["st"][l["k"] - 1]        # failed calls leave the store as it was
+            if cls == "badpass" and PADDED.get(stored) == l["p"]:
+                items.add(("ws-padded-wrong", l["op"]))
+            if cls == "badpass" and BASE_OF.get(stored) == l["p"]:
+                items.add(("ws-trimmed-wrong", l["op"]))
+            if cls == "ok" and l["p"] in BASE_OF:
+                items.add(("ws-right", l["op"]))
     return items
 
 
@@ -250,11 +269,31 @@ def _select(pool, budget, npass, rnd, must):
     return [pool[i] for i in chosen], covered, spent
 
 
-def _passes(seed):
+WS_ASCII = [" ", "\n", "\t", "\r\n", "  ", " \t\n"]
+WS_UNI = ["\u00a0", "\u3000", "\u2003", "\u0085", "\u2028", "\u00a0 "]
+
+
+def _passes(seed, n):
+    """One binding of the passphrase names per behaviour: "e" empty, "w" white space only, "u" a base
+    passphrase (unicode / long / plain), "v" = "u" with ASCII or unicode white space added before
+    and/or after.  All four are different strings."""
     rnd = random.Random(seed * 15485863 + 7)
-    uni = rnd.choice(["пароль-密码-🔑", "contraseña ñ ü 😀", "パスワード ß", "‮abc\u0000def"])
-    long_ = "".join(rnd.choice("abcdefghijklmnopqrstuvwxyzABCDEFGHIJKLMNOPQRSTUVWXYZ0123456789 !@#$%^&*()") for _ in range(rnd.choice([257, 1024, 4096])))
-    return {"e": "", "u": uni, "l": long_}
+    out = []
+    for i in range(n):
+        kind = i % 4
+        if kind == 0:
+            u = rnd.choice(["пароль-密码-🔑", "contraseña ñ ü 😀", "パスワード ß", "abc\u0000def"])
+        elif kind == 1:
+            u = "".join(rnd.choice("abcdefghijklmnopqrstuvwxyzABCDEFGHIJKLMNOPQRSTUVWXYZ0123456789 !@#$%^&*()")
+                        for _ in range(rnd.choice([257, 1024, 4096]))).strip() or "x"
+        else:
+            u = rnd.choice(["hunter2", "pw", "correct horse battery staple", "p w"])
+        ws = rnd.choice(WS_ASCII if i % 2 == 0 else WS_UNI)
+        ws2 = rnd.choice(WS_ASCII + WS_UNI)
+        v = {0: u + ws, 1: ws + u, 2: ws + u + ws2}[rnd.randrange(3)]
+        w = rnd.choice(WS_ASCII + WS_UNI + [" \u00a0\n"])
+        out.append({"e": "", "w": w, "u": u, "v": v})
+    return out
 
 
 def _compare_behaviours(backend, behs, resp, find, notes, job):
@@ -274,8 +313,9 @@ def _compare_behaviours(backend, behs, resp, find, notes, job):
                      dict({"backend": backend, "behaviour_index": b, "step": i, "call": beh[i]["l"] if i < len(beh) else "probe",
                            "prefix": [s["l"]["op"] + "/" + s["l"]["res"]["class"] for s in beh[:i]]}, **extra),
                      {"driver": "cryptodrv", "args": ["keybase"],
-                      "job": {"seed": job["seed"], "backend": backend, "passes": job["passes"], "nknown": job["nknown"], "nk": job["nk"],
-                              "probe": True, "workers": 1, "behaviours": [beh]}, "failing_step": i})
+                      "job": {"seed": job["seed"], "backend": backend, "passes": (job.get("passes_by") or [job["passes"]] * (b + 1))[b],
+                              "nknown": job["nknown"], "nk": job["nk"], "probe": True, "workers": 1, "behaviours": [beh]},
+                      "failing_step": i})
 
         diverged = False
         for i, (s, r) in enumerate(zip(beh, rs)):
@@ -329,7 +369,7 @@ def _compare_behaviours(backend, behs, resp, find, notes, job):
             st = beh[-1]["st"]
             pr = rs[-1].get("probe") or {}
             for k in beh[-1]["list"]:
-                for pname in job["passes"]:
+                for pname in (job.get("passes_by") or [job["passes"]] * (b + 1))[b]:
                     want = st[k - 1] == pname
                     got = (pr.get(str(k)) or {}).get(pname)
                     nconf += 1
@@ -360,7 +400,7 @@ def _run_keybase(d, tier, seed, out, find, notes):
     notes["keybase_tlc_coverage"] = _coverage_summary(res.out, "Keybase")
     # behaviours from the simulator
     pool, seen = [], set()
-    must = set(REQUIRED)
+    must = set(REQUIRED) | set(WS_REQUIRED)
     for attempt in range(6):
         sim = _tlc("Keybase", cfg["kbsim"], d, "Keybase simulation", cfg["tlc_timeout"],
                    simulate="num=%d" % cfg["sim_num"], depth=cfg["depth"] + 1, seed=seed * 10 + attempt)
@@ -384,16 +424,16 @@ def _run_keybase(d, tier, seed, out, find, notes):
         raise common.ToolError("Keybase simulation never produced %s (vacuity)" % sorted(missing))
     notes["keybase_behaviour_pool"] = len(pool)
     rnd = random.Random(seed * 2654435761 % (2 ** 31))
-    passes = _passes(seed)
     total_steps = 0
     ncompared = 0
     for backend, budget in (("mem", cfg["budget_mem"]), ("lazy", cfg["budget_lazy"])):
-        behs, covered, spent = _select(pool, budget, len(passes), rnd, must)
+        behs, covered, spent = _select(pool, budget, 4, rnd, must)
+        passes_by = _passes(seed, len(behs))
         miss = must - {it for it in covered if len(it) == 2}
         if miss:
             raise common.ToolError("Keybase (%s): the budget of %d scrypt runs does not cover %s" % (backend, budget, sorted(miss)))
-        job = {"seed": seed, "backend": backend, "passes": passes, "nknown": 2, "nk": 3, "probe": True,
-               "workers": cfg["workers"], "behaviours": behs}
+        job = {"seed": seed, "backend": backend, "passes": passes_by[0] if passes_by else {}, "passes_by": passes_by,
+               "nknown": 2, "nk": 3, "probe": True, "workers": cfg["workers"], "behaviours": behs}
         t0 = time.time()
         p = common.run_driver("cryptodrv", ["keybase"], stdin=json.dumps(job), timeout=3000)
         if p.returncode != 0:
@@ -405,11 +445,12 @@ def _run_keybase(d, tier, seed, out, find, notes):
         notes.setdefault("keybase_replay", {})[backend] = {
             "behaviours": len(behs), "steps": nsteps, "comparisons": nconf, "scrypt_runs_budgeted": spent,
             "wall_s": round(time.time() - t0, 1),
-            "op_class_pairs_covered": len({it for it in covered if len(it) == 2}),
+            "op_class_pairs_covered": len(set(REQUIRED) & covered), "white_space_items_covered": len(set(WS_REQUIRED) & covered),
             "items_covered": len(covered)}
         if backend == "mem" and behs:
             out.sample({"keybase_behaviour": [(s["l"]["op"], s["l"]["k"], s["l"]["p"], s["l"]["q"], s["l"]["res"]["class"]) for s in behs[0]]}, limit=8)
-    notes["keybase_passphrases"] = {k: (v if len(v) < 40 else "%s... (%d chars)" % (v[:20], len(v))) for k, v in passes.items()}
+    notes["keybase_passphrase_bindings_first_4"] = [
+        {k: (v if len(v) < 40 else "%s... (%d chars)" % (v[:20], len(v))) for k, v in pb.items()} for pb in passes_by[:4]]
     return ncompared, total_steps
 
 
@@ -434,7 +475,7 @@ ASSUMPTIONS = [
     "listed key signed the message in its own position (nested keys recursively). MultiSignature.AddSignatureByIndex is "
     "not fixed by the property; its transcription is compared as a conformance note.",
     "Key trees have depth <= 2 and at most 3 leaf keys, arrangements at most MaxLeaves atoms; keybase behaviours are drawn "
-    "from 3 keys x 3 passphrases (empty, unicode, long) with at most 2 kept armors; GetCoinbase without a cached value is "
+    "from 3 keys x 4 passphrases (empty; white space only; a base passphrase that is unicode, long or plain; the base padded with ASCII or unicode white space - bound per behaviour) with at most 2 kept armors (exhaustive run of the quick tier: 1); GetCoinbase without a cached value is "
     "modelled only when at most one key is listed.",
 ]
 
